@@ -262,6 +262,9 @@ fn judge(ctx: &mut Ctx, inst: &str, jd: &Value, transcribed: &Value, obs: &Value
             ctx.count("judged_error_class");
             let exp = json!({"ok": false, "err": jd["err"]});
             ctx.check("C05", "refused with the matching error", inst, obs == &exp, &exp, obs);
+            if inst == "Purl" && jd["err"] == json!("UnsupportedType") {
+                ctx.check("C08", "a well-formed type other than the seven known ones is refused by the typed PURL", inst, obs == &exp, &exp, obs);
+            }
             if inst == "Purl" && (jd["err"] == json!("UnsupportedType") || jd["err"] == json!("Parse:InvalidPackageType")) {
                 ctx.check("C15", "a type string that is not the name of a known type is never taken for one", inst, obs["ok"] == json!(false), &exp, obs);
             }
